@@ -456,9 +456,10 @@ func ZZ_C03_lex_structured() {
 	case 4: // -1…   numbers with free tail
 		body = append([]byte("-1"), mid...)
 	case 5: // "\uXXXX…"  four arbitrary bytes in the hex positions of a unicode escape
-		zzAssume(k <= 1)
+		zzAssume(k <= zzParam("KU", 0))
 		body = append(append(append([]byte(`"\u`), zzBytes("hex", 4)...), mid...), '"')
 	case 6: // "\…"  arbitrary bytes after a backslash
+		zzAssume(k <= zzParam("KE", 2))
 		body = append(append([]byte(`"\`), mid...), '"')
 	}
 	zzCompareTokens(body, 0, true)
